@@ -13,7 +13,7 @@ class A(Adapter):
     serves = {"C01", "C04", "C05", "C07", "C08", "C09", "C10", "C11", "C12"}
     terminate_on_invalid = True
     max_steps = 110
-    ops = ("state", "step", "judge", "instance", "bounds", "episode")
+    ops = ("state", "step", "judge", "instance", "bounds", "episode", "spec")
     state_fields = ["board", "step_count", "flat_mine_locations"]
 
     def configs(self, tier):
@@ -76,6 +76,13 @@ class A(Adapter):
         (op minesweeper.episode), fed the same start state and actions plus one surplus action, stops at the same step,
         in the same final state, with the same return and the same classification of the ending."""
         import jax
+
+        # wave 3 (C01 spec membership): declared specs vs the model's obsSpec / actionSpec, the reset timestep, observations as
+        # spec-level arrays, (obsSpec cfg).valid vs observation_spec.validate — every configuration
+        import spec_wave3 as w3
+
+        w3.check_specs(ctx, self, cfg, env, drv)
+        w3.check_reset_and_obs(ctx, self, cfg, env, runner, rng, drv, 3 if ctx.quick else 8, 8 if ctx.quick else 60)
 
         R, C = cfg.meta["rows"], cfg.meta["cols"]
         r_empty, r_mine, r_invalid = (unrat(cfg.cfg[k]) for k in ("r_empty", "r_mine", "r_invalid"))
